@@ -50,6 +50,10 @@ u8* _ZN13Base64Decoder6DecodeEv(u8* dec) {
   n_dec++; decoded.b = cred; decoded.e = cred + cred_len; return (u8*)&decoded; }
 u8* _ZNKSt6vectorISt4byteSaIS0_EE5beginEv(u8* v) { return ((vec_t*)v)->b; }
 u8* _ZNKSt6vectorISt4byteSaIS0_EE3endEv(u8* v) { return ((vec_t*)v)->e; }
+u64 _ZNKSt6vectorISt4byteSaIS0_EE4sizeEv(u8* v) { return (u64)(((vec_t*)v)->e - ((vec_t*)v)->b); }
+u8 _ZNKSt6vectorISt4byteSaIS0_EE5emptyEv(u8* v) { return ((vec_t*)v)->e == ((vec_t*)v)->b; }
+u8* _ZNKSt6vectorISt4byteSaIS0_EE4dataEv(u8* v) { return ((vec_t*)v)->b; }
+u8* _ZNKSt6vectorISt4byteSaIS0_EEixEm(u8* v, u64 i) { return ((vec_t*)v)->b + i; }
 void _ZNSt6vectorISt4byteSaIS0_EEC2Ev(u8* v) { ((vec_t*)v)->b = 0; ((vec_t*)v)->e = 0; }
 void _ZNSt6vectorISt4byteSaIS0_EED2Ev(u8* v) { (void)v; }
 static u8 auth[64] __attribute__((aligned(8)));      /* Header vptr + std::string value_ at offset 8 */
